@@ -19,6 +19,7 @@ returns the content it leaves behind and either raw segments or a failure.
 the driver can tell the two apart and `Props/C09` can state why the copy is needed.
 -/
 import MxlVerif.Model.Queries
+import MxlVerif.Generated.C09Facts
 namespace Mxl.C09
 
 abbrev Row := List (Name × Rat)
@@ -146,8 +147,12 @@ def seqScanWith (copyFirst : Bool) (w : Worker) :
       | .error e => .error e
       | .ok (h2, ss) => .ok (h2, (lr.1, s) :: ss)
 
-/-- the shipped code (after the fix) -/
-def seqScan := seqScanWith true
+/-- does the row task of the CURRENT source (`Generated/C09Facts.lean`, regenerated from scan.py on every run) start
+    by copying the model it was handed?  The model follows the source; `Props/C09` needs `true`. -/
+def shippedCopyFirst : Bool := Generated.C09.rowSteps.head? == some Generated.C09.RowStep.copy
+
+/-- the shipped code -/
+def seqScan := seqScanWith shippedCopyFirst
 
 /-! ### process pool -/
 
@@ -190,7 +195,15 @@ def parScanWith (copyFirst : Bool) (assign : List Nat) (n : Nat) (w : Worker)
   | .error e => .error e
   | .ok c => collect h (schedMap assign n (fun lr => (lr.1, childTask copyFirst w c lr.2)) rows)
 
-def parScan := parScanWith true
+def parScan := parScanWith shippedCopyFirst
+
+/-- unpickling a list of results one after the other: the i-th gets the i-th fresh cell -/
+def placeFrom (n : Nat) : List (Label × Pickled) → List (Label × Sim)
+  | [] => []
+  | lp :: rest => (lp.1, { cell := n, segs := lp.2.segs, nan := lp.2.nan }) :: placeFrom (n + 1) rest
+
+def placeAll (h : Heap) (ps : List (Label × Pickled)) : Heap × List (Label × Sim) :=
+  (h ++ ps.map (·.2.content), placeFrom h.length ps)
 
 /-! ### lazy views -/
 
